@@ -108,6 +108,11 @@ def run(ctx):
     n1 = layer(ctx, "full", 1)
     n2 = layer(ctx, "full", 2)
     ctx.layer("full-alphabet", k_max=2, filters=n0 + n1 + n2, exhaustive=True)
+    # history layer: the k<=1 filters serially in ONE process, forward and then in reverse order (module/class-level state)
+    hist = list(enum_for("full").terms(typed.B, 0)) + list(enum_for("full").terms(typed.B, 1))
+    for t in hist + hist[::-1]:
+        check_term(ctx, t, styles=("min",), aliases=(None,))
+    ctx.layer("history-forward-reverse", filters=2 * len(hist), exhaustive=True)
     strs = SC.sigma_strings(2)
     ctx.pmap(_string_unit, [strs[i::32] for i in range(32)])
     ctx.layer("string-literals", strings=len(strs), positions=len(SC.string_position_terms(T.Str("x"), CAP)), exhaustive=True)
